@@ -21,7 +21,7 @@ from inline_snapshot import snapshot
 __all__ = [
     "Color", "Perm", "Outer", "DC", "DCD", "DCN", "AT", "PM", "NT", "NTD", "NoCode", "NoCodeBox", "BadCopy", "RaisesEq",
     "Unorderable", "REC", "rec", "ok", "mark", "check_eq", "check_le", "check_ge", "check_in", "G", "set_g",
-    "Is", "outsource", "snapshot", "defaultdict", "ident", "Plain", "EvilEq", "snapshot_alias", "NP", "NPBool", "check_example", "EXAMPLE_SRC", "KW", "Tags", "FTags", "rec_value", "in_thread", "BadList", "ATP", "DCI", "IPerm", "NoCodeStmt", "DCA", "DCB",
+    "Is", "outsource", "snapshot", "defaultdict", "ident", "Plain", "EvilEq", "snapshot_alias", "NP", "NPBool", "check_example", "EXAMPLE_SRC", "KW", "Tags", "FTags", "rec_value", "in_thread", "BadList", "ATP", "DCI", "IPerm", "NoCodeStmt", "DCA", "DCB", "NoCodeSometimes",
 ]
 
 defaultdict = collections.defaultdict
@@ -177,6 +177,23 @@ class NoCodeStmt:
 
     def __eq__(self, other):
         if type(other) is not NoCodeStmt:
+            return NotImplemented
+        return self.n == other.n
+
+    __hash__ = None
+
+
+class NoCodeSometimes:
+    """the repr is Python code for some instances and not for others of the same type"""
+
+    def __init__(self, n):
+        self.n = n
+
+    def __repr__(self):
+        return f"NoCodeSometimes({self.n})" if self.n else "<NoCodeSometimes unset>"
+
+    def __eq__(self, other):
+        if type(other) is not NoCodeSometimes:
             return NotImplemented
         return self.n == other.n
 
